@@ -95,6 +95,27 @@ func genMix(p *Plan, r *RNG, bias string) {
 		p.Cfg.ListenerIP = "fd00::1"
 		p.Flavor += "-v6"
 	}
+	// pipelined: over a stream listener the client's data messages leave in bursts, the stream
+	// is cut without regard to message boundaries, and a Read hands the server the end of one
+	// message together with the beginning of the next
+	pipelined := tcpl && r.Chance(1, 2)
+	if pipelined {
+		cuts, reads := genCuts(r)
+		p.Streams = []StreamCut{{Conn: "*", Cuts: cuts, Reads: reads, Coalesce: true}}
+		p.Flavor += "+pipelined"
+	}
+	burst := func() {
+		if !pipelined {
+			return
+		}
+		last := p.Ops[len(p.Ops)-1]
+		for k := r.Range(1, 3); k > 0; k-- {
+			o := last
+			o.At = gap(0)
+			o.A.Len = payloadLen(r, bias)
+			p.Ops = append(p.Ops, o)
+		}
+	}
 	p.Cfg.PermTimeoutS = r.PickInt([]int{0, 0, 3, 10, 60, 300, 600})
 	p.Cfg.ChanTimeoutS = r.PickInt([]int{0, 0, 4, 12, 60, 600, 1200})
 	p.Cfg.AllocLifeS = r.PickInt([]int{0, 0, 30, 120, 600, 3600})
@@ -265,6 +286,7 @@ func genMix(p *Plan, r *RNG, bias string) {
 				_, tgt = pickPeer()
 			}
 			p.Ops = append(p.Ops, Op{Actor: c, Kind: "send", At: g, A: OpArgs{Peer: tgt, Len: payloadLen(r, bias), Content: contentKind(r, bias)}})
+			burst()
 		case w < 52:
 			ch := 0x4000 + r.Intn(3)
 			if bs := chans[c]; len(bs) > 0 && r.Chance(3, 4) {
@@ -277,6 +299,7 @@ func genMix(p *Plan, r *RNG, bias string) {
 				ch = 0x4000 + ch%0x4000
 			}
 			p.Ops = append(p.Ops, Op{Actor: c, Kind: "chandata", At: g, A: OpArgs{Chan: ch, Len: payloadLen(r, bias), Content: contentKind(r, bias)}})
+			burst()
 		case w < 70:
 			o := Op{Actor: pid, Kind: "peer_send", At: g, A: OpArgs{Target: c, Len: payloadLen(r, bias), Content: contentKind(r, bias)}}
 			if r.Chance(1, 4) {
